@@ -8,8 +8,8 @@
  * strlen of env_split.h and the fat-block allocator; the input's terminator is the last byte of its object.
  *
  * "points at the i-th whitespace-separated word": the returned pointer is the first character of that
- * word (a word that opens with a quote: spiftool_get_pword documents that it points behind the quote;
- * both positions are accepted, the obligation text says which one was required).
+ * word; for a word that opens with a quote character and has more characters it is the character behind
+ * the quote (what spiftool_get_pword documents: "..." counts as 1 word).
  *
  * Input classes (disjoint assumptions; a known defect of one class cannot hide a regression in another):
  *   plain      no quote character, no backslash
@@ -207,12 +207,10 @@ void harness(void)
         /* num_words counts quote-delimited words, so it may exceed the number of whitespace-separated words */
         __CPROVER_assert((p != NULL) == (off >= 0), "get_pword " CLS ": a pointer is returned iff there is an i-th whitespace-separated word");
         if (p != NULL && off >= 0) {
-            if (in[off] == '\'' || in[off] == '"') {
-                __CPROVER_assert((char *) p == in + off + 1 || (char *) p == in + off,
-                                 "get_pword " CLS ": points at (or just behind the opening quote of) the i-th whitespace-separated word");
-            } else {
-                __CPROVER_assert((char *) p == in + off, "get_pword " CLS ": points at the i-th whitespace-separated word");
-            }
+            /* spiftool_get_pword documents that the pointer is set behind the opening quote of a quoted word */
+            int skip = ((in[off] == '\'' || in[off] == '"') && in[off + 1] != 0) ? 1 : 0;
+            __CPROVER_assert((char *) p == in + off + skip,
+                             "get_pword " CLS ": points at the i-th whitespace-separated word (behind its opening quote, if it has one)");
         }
     }
 #endif
